@@ -805,3 +805,54 @@ def rule_SC1(ctx, files=None):
                          '%s receives the sine and %s the cosine at %s' % (na, nb, f.loc(i)))
     res.analysed['named_sine_cosine_results'] = n
     return res, n
+
+
+def rule_POS1(ctx, files=None):
+    res = RuleResult('POS1', 'positions are not lengths: the length argument of s.substr(pos, len) / std::string(s, pos, len) '
+                             'with a non-zero pos is not a variable that the function uses as a position in the string (a '
+                             'subscript, a result of find...) without ever turning it into a length by subtraction')
+    ncalls = 0
+    seen = set()
+    for f in sorted(ctx.lib_fns(), key=lambda x: (x.file, x.line)):
+        if not _in(f, files) or f.d.get('body', -1) < 0 or (f.file, f.line, f.name) in seen:
+            continue
+        seen.add((f.file, f.line, f.name))
+        pos = set()
+        reduced = set()
+        for i, n in f.all_nodes():
+            if n['k'] == 'ArraySubscriptExpr' or (n['k'] == 'CXXOperatorCallExpr' and (n.get('callee') or {}).get('name') == 'operator[]'):
+                ch = n.get('args') or n['ch']
+                if len(ch) >= 2:
+                    for j in f.walk(ch[1]):
+                        m = f.nodes[j]
+                        if m['k'] == 'DeclRefExpr' and m.get('rk') in ('local', 'param'):
+                            pos.add(m['d'])
+            if n['k'] == 'DeclStmt':
+                for d in n['decls']:
+                    if d.get('init', -1) >= 0 and any(str((f.nodes[j].get('callee') or {}).get('name', '')).startswith('find')
+                                                      for j in f.walk(d['init'])):
+                        pos.add(d['d'])
+            if n['k'] == 'CompoundAssignOperator' and n.get('op') == '-=':
+                ln = f.nodes[f.strip_casts(n['ch'][0])]
+                if ln['k'] == 'DeclRefExpr':
+                    reduced.add(ln['d'])
+        for i, n in f.all_nodes():
+            ce = n.get('callee') or {}
+            args = None
+            if ce.get('name') == 'substr' and len(n.get('args', [])) == 2:
+                args = n['args']
+            elif ce.get('name') == 'basic_string' and ce.get('ctor') and len(n.get('args', [])) >= 3 and \
+                    'basic_string' in f.nodes[f.strip_casts(n['args'][0])].get('t', ''):
+                args = n['args'][1:3]
+            if not args:
+                continue
+            ncalls += 1
+            p_, l_ = f.nodes[f.strip_casts(args[0])], f.nodes[f.strip_casts(args[1])]
+            pzero = 'cv' in p_ and int(p_['cv']) == 0
+            bad = l_['k'] == 'DeclRefExpr' and l_.get('d') in pos and l_.get('d') not in reduced and not pzero
+            res.ob(not bad, None)
+            if bad:
+                res.fail(f.q, str(l_.get('name')), f.loc(i), '%s is used as a position in the string elsewhere in %s but is passed as '
+                         'the length of the substring starting at a non-zero position at %s' % (l_.get('name'), f.q, f.loc(i)))
+    res.analysed['substring_calls'] = ncalls
+    return res, ncalls
